@@ -18,7 +18,7 @@ from ..seams.simaddr import SimAddresses
 
 SIMS = ["birth_death", "birth_death", "fast_birth_death", "uniform_pure_birth", "pure_kingman", "pure_kingman_shape",
         "mean_kingman", "contained_coalescent", "contained_coalescent", "constrained_kingman", "treesim_birth_death",
-        "treesim_pure_kingman", "discrete_time_to_coalescence", "coalesce_nodes"]
+        "treesim_pure_kingman", "discrete_time_to_coalescence", "coalesce_nodes", "rand_trees", "containing_tree"]
 BUDGET = 4000000
 
 
@@ -65,7 +65,7 @@ class C18(Machine):
                   "edge_pop": rng.random() < 0.5, "root_len": rng.choice([None, None, 0.25, 2.0]), "junk": rng.choice([0, 0, 7, 101, 1000, 4096]),
                   "sd": rng.choice([0.0, 0.0, 0.1]), "period": rng.choice([None, 0.1, 1.0, 5.0]),
                   "strategy": rng.choice(["node_attribute", "node_attribute", "fixed_per_population", "random_uniform"]),
-                  "reuse_species_tree": rng.random() < 0.5, "decorate": rng.random() < 0.3}
+                  "reuse_species_tree": rng.random() < 0.5, "decorate": rng.random() < 0.3, "ns_label_style": rng.choice([0, 0, 1, 2])}
             steps.append(st)
         return {"config": {}, "initial": {}, "steps": steps}
 
@@ -74,12 +74,19 @@ class C18(Machine):
         """Build fresh arguments and call the simulator.  Returns (kind, tree or value, extra)."""
         sim = st["sim"]
         n = st["ntips"]
-        if sim in ("birth_death", "fast_birth_death", "treesim_birth_death"):
+        if sim in ("birth_death", "fast_birth_death", "treesim_birth_death", "rand_trees"):
             kw = {"num_extant_tips": n, "rng": rng}
             if st["with_namespace"]:
                 # supplied namespace: empty, smaller than, equal to or larger than the number of tips
                 k = {0: 0, 1: max(1, n // 2), 2: n - 1, 3: n, 4: n, 5: n + 2}[st.get("ns_fill", 3)]
-                kw["taxon_namespace"] = dendropy.TaxonNamespace(["T%d" % (i + 1) for i in range(k)])
+                # the simulator makes up labels T1, T2, ... for the tips the namespace cannot serve: the supplied labels may be
+                # exactly those, case variants of them (the default namespace matches labels case-insensitively), or unrelated
+                style = ["T%d", "t%d", "sp%d"][st.get("ns_label_style", 0)]
+                kw["taxon_namespace"] = dendropy.TaxonNamespace([style % (i + 1) for i in range(k)])
+            if sim == "rand_trees":
+                del kw["rng"]
+                trees = list(treesim.rand_trees(rng, treesim.birth_death_tree, dict(kw, birth_rate=st["birth"], death_rate=st["death"]), 2))
+                return "bd", trees[-1], n
             if sim == "birth_death":
                 return "bd", birthdeath.birth_death_tree(st["birth"], st["death"], birth_rate_sd=st["sd"], death_rate_sd=st["sd"], **kw), n
             if sim == "treesim_birth_death":
@@ -98,7 +105,7 @@ class C18(Machine):
             return "kingman", treesim.pure_kingman_tree(ns, pop_size=ps, rng=rng), n
         if sim == "pure_kingman_shape":
             return "kingman_shape", coalescent.pure_kingman_tree_shape(n, pop_size=st["pop_size"] or 1, rng=rng), n
-        if sim in ("contained_coalescent", "constrained_kingman"):
+        if sim in ("contained_coalescent", "constrained_kingman", "containing_tree"):
             labels = ["S%d" % i for i in range(st["nspecies"])]
             if st.get("reuse_species_tree") and self._species is not None:
                 # many gene trees are simulated inside one species tree object: the call must not depend on what an earlier
@@ -113,6 +120,16 @@ class C18(Machine):
                     for k, nd in enumerate(rawtree.raw_nodes(stree)):
                         nd.edge.pop_size = [0.5, 1.0, 2.0, 10.0][k % 4]
                 self._species = (sns, stree)
+            if sim == "containing_tree":
+                # the third interface to the same simulation: a species tree that holds its gene trees
+                from dendropy.model import reconcile
+                mapping = dendropy.TaxonNamespaceMapping.create_contained_taxon_mapping(
+                    containing_taxon_namespace=sns, num_contained=list(st["genes"][:len(labels)]))
+                ct = reconcile.ContainingTree(containing_tree=stree, contained_taxon_namespace=mapping.domain_taxon_namespace,
+                                              contained_to_containing_taxon_map=mapping)
+                gt = ct.simulate_contained_kingman(default_pop_size=st["pop_size"] or 1, rng=rng)
+                g2s = dict((g.label, mapping[g].label) for g in mapping.domain_taxon_namespace)
+                return "contained", gt, (ct, g2s)
             if sim == "contained_coalescent":
                 mapping = dendropy.TaxonNamespaceMapping.create_contained_taxon_mapping(
                     containing_taxon_namespace=sns, num_contained=list(st["genes"][:len(labels)]))
